@@ -55,11 +55,12 @@ def name_table(names, rng, family):
     names = sorted(names)
     tab = {}
     if family == "ascii":
-        pool = {"a": "a", "b": "b", "c": "c", "d": "d", "bbb": "bbb", "long1": "temperature", "long2": "surface_pressure"}
+        # (the model gives every short abstract name one byte length and every long one another: equally long concrete names per class)
+        pool = {"a": "a", "b": "b", "c": "c", "d": "d", "bbb": "bbb", "long1": "temperature", "long2": "air_density"}
         for n in names:
             tab[n] = pool.get(n, n)
     elif family == "utf8":
-        pool = {"a": "é", "b": "ñ", "c": "水", "bbb": "åçz", "long1": "温度_t", "long2": "Straßé_x"}
+        pool = {"a": "é", "b": "ñ", "c": "ü", "bbb": "åçz", "long1": "温度_t", "long2": "Äp_ölx"}      # 2 bytes / 8 bytes
         for n in names:
             tab[n] = pool.get(n, n)
     elif family == "collide":
